@@ -372,6 +372,104 @@ def gen_config(rng: random.Random, spec: dict, backend: str) -> dict:
     return cfg
 
 
+# ------------------------------------------------------------------------------------------
+# steering: in-place re-save that keeps the data file names but moves tensors between the files
+# ------------------------------------------------------------------------------------------
+def declaration_order(spec: dict) -> list[dict]:
+    """Initializer specs in the order a serialized model declares them."""
+    rank = {g: i for i, g in enumerate(dfs_order(list(spec["graphs"])))}
+    return sorted(spec["inits"], key=lambda s: rank.get(s["g"], 0))   # stable: list order inside a graph
+
+
+def plan_shards(sizes: list[int], thr: int, limit: int | None) -> dict[int, int]:
+    """The harness' own picture of 'tensors not smaller than ``thr`` in declaration order, a new file
+    whenever the limit would be exceeded': position -> file number.  It only *steers* the
+    generator towards configurations of a wanted shape; no verdict is derived from it (whether a
+    case really has that shape is counted from what was observed on disk)."""
+    out: dict[int, int] = {}
+    shard, cur = 0, 0
+    for i, n in enumerate(sizes):
+        if n < thr:
+            continue
+        if limit is not None and cur and cur + n > limit:
+            shard, cur = shard + 1, 0
+        out[i] = shard
+        cur += n
+    return out
+
+
+def steer_inplace_repartition(rng: random.Random, spec: dict, cfg: dict) -> bool:
+    """For a safetensors -> safetensors re-save: choose (threshold, shard limit) of both saves so
+    that both produce the same number (>= 2) of shard files - hence the same file names, i.e. the
+    second save replaces the very files the loaded model still reads from - while at least one
+    tensor has to move to another file (boundary earlier or later, through the limit or through
+    tensors entering/leaving the external set).  Call after ``normalise``; only option values
+    change.  Returns whether such a pair of configurations was found."""
+    re = cfg.get("resave")
+    if not re or cfg["backend"] != "st" or re["backend"] != "st":
+        return False
+    if isinstance(cfg.get("callback"), dict) or cfg.get("fail") or cfg.get("invalid") or \
+            any(s.get("raise") for s in spec["inits"]):
+        return False   # the first save is meant to raise: there is nothing to re-save
+    order = declaration_order(spec)
+    sizes = [nbytes_of(s["dtype"], s["shape"]) for s in order if s["kind"] != "string"]
+    strings = [sum(len(x.encode()) for x in s["strings"]) for s in order if s["kind"] == "string"]
+    min_thr = max(strings) + 1 if strings else 0     # STRING tensors stay below every threshold
+    if sum(1 for n in sizes if n > 0) < 2:
+        return False
+    opts0, opts1 = cfg["opts"], re["opts"]
+    positive = sorted({n for n in sizes if n > 0})
+    thr_pool = {opts0.get("size_threshold_bytes", 256), opts1.get("size_threshold_bytes", 256), 0, 1,
+                positive[0], positive[len(positive) // 2], positive[len(positive) // 2] + 1}
+    thr_pool = sorted(t for t in thr_pool if t >= min_thr) or [min_thr]
+
+    def limits_for(thr: int) -> list[int]:
+        kept = [n for n in sizes if n >= thr]
+        sums = set()
+        for i in range(len(kept)):
+            acc = 0
+            for j in range(i, len(kept)):
+                acc += kept[j]
+                sums.update((acc - 1, acc, acc + 1))
+        return sorted(x for x in sums if x >= 1)
+
+    for _ in range(6):
+        # first save: keep what was drawn when it already yields >= 2 files
+        thr0 = opts0.get("size_threshold_bytes", 256)
+        lim0 = opts0.get("max_shard_size_bytes")
+        if thr0 < min_thr or len(set(plan_shards(sizes, thr0, lim0).values())) < 2 or rng.random() < 0.25:
+            thr0 = rng.choice(thr_pool)
+            cands = [x for x in limits_for(thr0) if len(set(plan_shards(sizes, thr0, x).values())) >= 2]
+            if not cands:
+                continue
+            lim0 = rng.choice(cands)
+        p0 = plan_shards(sizes, thr0, lim0)
+        files = len(set(p0.values()))
+        # second save: same number of files, some tensor in another file
+        thr1_first = opts1.get("size_threshold_bytes", 256)
+        thrs = [t for t in ([thr1_first] if thr1_first >= min_thr and rng.random() < 0.6 else []) + thr_pool]
+        found = []
+        for thr1 in thrs:
+            lims = limits_for(thr1)
+            if len(lims) > 120:
+                lims = rng.sample(lims, 120)
+            for lim1 in lims:
+                if (thr1, lim1) == (thr0, lim0):
+                    continue
+                p1 = plan_shards(sizes, thr1, lim1)
+                if len(set(p1.values())) == files and any(p1[i] != p0[i] for i in p1 if i in p0):
+                    found.append((thr1, lim1))
+            if found and rng.random() < 0.7:
+                break
+        if not found:
+            continue
+        thr1, lim1 = rng.choice(found)
+        opts0["size_threshold_bytes"], opts0["max_shard_size_bytes"] = thr0, lim0
+        opts1["size_threshold_bytes"], opts1["max_shard_size_bytes"] = thr1, lim1
+        return True
+    return False
+
+
 def st_data_rel(model_rel: str) -> str:
     """Where save_safetensors documents it puts the data: '<model stem>.safetensors'."""
     base = os.path.basename(model_rel)
